@@ -30,6 +30,10 @@ CheckCase ==
                                IF "singles" \in DOMAIN Ev
                                THEN (\A i \in 1..Len(Ev.singles) : Ev.singles[i] = "ok") => M(Modes[k]).write = "ok"
                                ELSE M(Modes[k]).write = "ok")
+    \* binding B: the population was enumerated by TLC on MCBinaryColumns, whose invariant AlwaysSucceeds says what
+    \* the writer's outcome is; the real writer must agree (a change that makes a single instance fail as well
+    \* satisfies the conditional clause above vacuously)
+    /\ "model_out" \in DOMAIN Ev => \A k \in ModeSet : Clause("write-" \o Modes[k], M(Modes[k]).write = Ev.model_out)
     \* C08: success does not depend on the order of siblings (nor on the process): the harness driver tells
     \* every population the outcome of the first one logged with the same multiset of instances
     /\ "peer_write" \in DOMAIN Ev => Clause("orderfree", \A k \in ModeSet : M(Modes[k]).write = Ev.peer_write)
